@@ -278,6 +278,10 @@ def check_history(ctx, case) -> None:
             if inputs is not None:
                 cur.process()
                 since.append(inputs)
+                if not lockprev:
+                    # with the flag toggled the step must equal a fresh engine built with that flag (eg, a disabled block
+                    # leaves every output at NaN / its default, not at the previous step's value)
+                    twin_check("history-dependence-while-toggled", sub)
             toggle(cur, cur_spec, op[1])  # restore
             if lockprev:
                 twin_ok = False
